@@ -327,3 +327,7 @@ def run(ck: Check, repo: Repo) -> None:
     r8 = ck.rule("R8", "template environments write values verbatim (no auto-escaping of re-rendered information)")
     c07.environments_verbatim(r8, repo)  # an existing header that is not found is not merged either
     rule_sibling_hides(ck, repo)
+    # what is merged is the existing header AS FOUND: the block handed to the merger and the text after it are slices of
+    # the one text at the position found - a block cut short loses the notices on the cut line (shared with C08-R4)
+    from . import c08
+    c08.rule_partition(ck, repo, "R10")
